@@ -302,8 +302,10 @@ pub fn udp(args: &[String]) -> anyhow::Result<()> {
                     let first = ssudp::server_decode_full(c, &sp, &us, &c2s[0]);
                     let (csid, _, _, _) = first.session.clone().unwrap_or((0, 0, 0, None));
                     let user = if users > 0 { Some(0) } else { None };
+                    // (the cipher cache is keyed by key address + session id: a fresh id per session, as the server draws one)
+                    let server_sid: u64 = rng.random();
                     let s2c: Vec<Vec<u8>> = (1..=2u64)
-                        .map(|pid| ssudp::server_encode(c, &sp, &us, user, (csid, 0x5151_0000_1234_5678, pid), &addr.to_octo(), &payload).unwrap_or_default())
+                        .map(|pid| ssudp::server_encode(c, &sp, &us, user, (csid, server_sid, pid), &addr.to_octo(), &payload).unwrap_or_default())
                         .collect();
                     let (mine, other, opposite): (Vec<u8>, Vec<u8>, Vec<u8>) = if dir == "c2s" { (c2s[0].to_vec(), c2s[1].to_vec(), s2c[0].clone()) } else { (s2c[0].clone(), s2c[1].clone(), c2s[0].to_vec()) };
                     let (us0, ue0) = unit_range(kind, c, dir, unit, mine.len());
